@@ -388,10 +388,23 @@ func runC18Stack(c C18Case) (st Stats, err error) {
 					if step.Mode == 3 {
 						a = stackage.Auxiliary{} // allocated but still empty: it is the caller's map all the same
 					}
+					prev, prevLen := userAux, len(userAux)
 					if !ro {
 						userAux, auxIsUser = a, true
 					}
 					s.SetAuxiliary(a)
+					// the map installed before is the caller's: replacing it must not touch its entries; and
+					// installing the same map once more must not either
+					if prev != nil && len(prev) != prevLen {
+						panic(fmt.Sprintf("SetAuxiliary changed the previously installed (caller-owned) map: %d entries before, %d after", prevLen, len(prev)))
+					}
+					if !ro {
+						n0 := len(a)
+						s.SetAuxiliary(a)
+						if len(a) != n0 {
+							panic(fmt.Sprintf("installing the same map a second time changed it: %d entries before, %d after", n0, len(a)))
+						}
+					}
 				case 1:
 					if !ro {
 						auxIsUser = false
